@@ -102,3 +102,45 @@ def lsr_obl(op, kind=8, ch=2, ratio='2.0', cap=3, timeout=400):
                funcs=['soxr-lsr.c:src_process', 'soxr-lsr.c:src_callback_read', 'soxr-lsr.c:src_simple', 'soxr-lsr.c:src_reset',
                       'soxr-lsr.c:src_float_to_short_array', 'soxr-lsr.c:src_float_to_int_array', 'soxr-lsr.c:src_short_to_float_array',
                       'soxr-lsr.c:src_int_to_float_array', 'soxr.c:soxr_set_error', 'soxr.c:soxr_process', 'soxr.c:soxr_output'])
+
+
+KERN_NAMES = {0: 'halfband', 1: 'vpoly0', 2: 'polyinterp', 3: 'cubic', 4: 'fixed0'}
+KERN_STUB = ('stage state constructed directly inside the stage envelope ENV(kind) (what cr.c:_soxr_init sets up: pre/pre_post/input_size, clock ranges, '
+             'coefficient table size); sample and coefficient DATA nondeterministic (count/position assertions hold for all data)')
+
+
+def kern_obl(kern, order=1, hn=8, split=0, hiprec=0, fixed=0, maxin=4, engine='cr32.c', tight=0, ntaps=4, timeout=600, tiers=('quick', 'thorough')):
+    defs = ['-DVF_KERN=%d' % kern, '-DVF_ORDER=%d' % order, '-DVF_HN=%d' % hn, '-DVF_SPLIT=%d' % split, '-DVF_HIPREC=%d' % hiprec,
+            '-DVF_FIXED=%d' % fixed, '-DVF_MAXIN=%d' % maxin, '-DVF_NTAPS=%d' % ntaps, '-DVF_ENGINE_C="%s"' % engine]
+    if tight:
+        defs.append('-DVF_OIR_TIGHT')
+    fn = {0: 'h%d' % hn, 1: 'vpoly0', 2: ('u100_%d' if fixed else 'vpoly%d') % order, 3: 'cubic_stage_fn', 4: 'U100_0' if fixed == 2 else 'u100_0'}[kern]
+    name = 'kern_%s_%s%s%s%s_in%d' % (engine.replace('.c', ''), fn, '_split' if split else '', '_hiprec' if hiprec else '', '_oirtight' if tight else '', maxin)
+    return Obl(name=name, src='kern_step.c', defs=defs, unwind=13 if kern != 4 or fixed != 2 else 44, timeout=timeout, tiers=tiers, ndebug=False,
+               desc='%s of %s: %s from any stage state in ENV' % (fn, engine, 'split lemma (a then b == a+b)' if split else 'one call'),
+               bounds='samples consumed per call <= %d; step in [0.5, 8) (2 outputs per input at most); FIFO allocation 96 samples with the valid region at an edge; %s' % (
+                   maxin, 'L <= 8, M <= 24' if kern in (1, 4) else 'all 64(+64)-bit clock values in range'),
+               stubs=[KERN_STUB],
+               funcs=['%s:%s' % (engine if engine != 'cr32.c' else 'cr-core.c', fn), 'fifo.h:fifo_reserve', 'fifo.h:fifo_read', 'fifo.h:fifo_trim_by'])
+
+
+def kern_set(tier, split=False):
+    """the kernels of the portable float engine; thorough adds the double engine"""
+    o = []
+    engines = ['cr32.c'] if tier == 'quick' else ['cr32.c', 'cr64.c']
+    for e in engines:
+        if not split:
+            o += [kern_obl(0, hn=8, engine=e), kern_obl(0, hn=9, engine=e), kern_obl(1, engine=e), kern_obl(2, order=1, engine=e),
+                  kern_obl(2, order=1, hiprec=1, maxin=2, engine=e), kern_obl(3, engine=e), kern_obl(4, fixed=1, engine=e),
+                  kern_obl(2, order=1, tight=1, maxin=2, engine=e)]
+            if tier == 'thorough':
+                o += [kern_obl(0, hn=7, engine=e), kern_obl(2, order=2, engine=e), kern_obl(2, order=3, engine=e), kern_obl(2, order=2, hiprec=1, maxin=2, engine=e),
+                      kern_obl(2, order=1, fixed=1, engine=e), kern_obl(2, order=2, fixed=1, engine=e), kern_obl(2, order=1, hiprec=1, maxin=4, engine=e, timeout=1500)]
+                if e == 'cr64.c':
+                    o += [kern_obl(0, hn=h, engine=e) for h in (10, 11, 12, 13)]
+        else:
+            o += [kern_obl(0, split=1, engine=e), kern_obl(1, split=1, maxin=2, engine=e), kern_obl(2, order=1, split=1, maxin=2, engine=e),
+                  kern_obl(3, split=1, maxin=2, engine=e)]
+            if tier == 'thorough':
+                o += [kern_obl(2, order=2, split=1, maxin=2, engine=e), kern_obl(2, order=1, split=1, hiprec=1, maxin=2, engine=e), kern_obl(4, fixed=1, split=1, maxin=2, engine=e)]
+    return o
